@@ -121,7 +121,7 @@ var startURLs = []string{
 	// the first eight are the diverse subset used where a quick tier cannot afford all of them
 	"http://u:p@h:8/p?q#f", "file:///C:/d", "a://u@h:8/p?q#f", "a:b ?q#f", "a:/.//p", "file://h/d", "a://:s@h/p", "a:  ?q#f",
 	"http://h/p?q#f", "https://h:80/", "ws://h", "http://1.2.3.4/", "http://[::1]:8/",
-	"a://h/p", "a://", "a:/p", "a:b", "a:b  #f",
+	"a://h/p", "a://", "a:/p", "a:b", "a:b  #f", "a:b  ?#f",
 }
 
 // Concrete value lists for the non-final calls of a history (DESIGN.md Appendix C):
